@@ -114,6 +114,7 @@ wb(void)
     }
   }
   printf("] cb[%.*s]", (int)cb_len, cb);
+  v_alloc_put_log(&va, stdout);   // compact allocator events of this call
   cb_len = 0;
   cb[0]  = 0;
 }
@@ -141,7 +142,8 @@ main(int argc, char** argv)
   char* tok[V_MAX_TOK];
   int   n = 0;
   v_alloc_init(&va);
-  va.logging = false;
+  va.logging = true;   // compact allocator events (M/C<id> obtained, f<id> released, 0 = refused) are part of the white-box output
+  va.compact = true;
   v_setup_io();
   signal(SIGALRM, on_alarm);
   key_off = 0;
@@ -157,6 +159,7 @@ main(int argc, char** argv)
     if (!strcmp(tok[0], "new")) {
       if (hash) zix_hash_free(hash);
       for (int i = 0; i < MAX_REC; ++i) { free(recs[i]); recs[i] = NULL; }
+      v_alloc_reset(&va);   // a new table starts a new allocator epoch: block 1 is the header, block 2 the first entry array
       hash = zix_hash_new(&va.base, key_func, hash_func, equal_func);
       cb_len = 0;
       printf("new");
